@@ -16,6 +16,7 @@
 (***************************************************************************)
 EXTENDS Spellings, FileStructure
 
+
 CONSTANT SepMode    \* "all" | "few" | "min": which separators the Producer may choose from
 
 Seps == SepsOf(SepMode)
@@ -107,7 +108,15 @@ AllNums(doc) ==
                        : c \in 1..Len(doc.revs[r].comp)}
            : r \in 1..Len(doc.revs)}
 MaxAll(doc) == LET S == AllNums(doc) IN IF S = {} THEN 0 ELSE CHOOSE n \in S : \A m \in S : m <= n
-SelfNum(doc, r) == MaxAll(doc) + r                   \* number of revision r's XRef stream object
+\* number of revision r's XRef stream object: a fresh number above everything, or (knob selfgap, first
+\* revision only) an unused number BELOW the highest object number - a file whose XRef stream is not its
+\* highest-numbered object
+FreeBelow(doc) == {n \in 1..MaxAll(doc) : n \notin AllNums(doc)}
+SelfNumK(doc, k, r) ==
+    IF r = 1 /\ k.selfgap /\ FreeBelow(doc) # {}
+    THEN CHOOSE n \in FreeBelow(doc) : \A m \in FreeBelow(doc) : m <= n
+    ELSE MaxAll(doc) + r
+SelfNum(doc, r) == SelfNumK(doc, plan.k, r)
 
 \* the stream dictionary as written: Length added unless the document already carries one
 StreamDictWritten(o, lenref) ==
@@ -290,7 +299,7 @@ XrefStreamObj ==
                           THEN LET e == ce[SelectInSeq(ce, LAMBDA x : x.num = n)] IN BE(2, w[1]) \o BE(e.cnum, w[2]) \o BE(e.idx, w[3])
                      ELSE BE(1, w[1]) \o BE(offs[n].off, w[2]) \o BE(offs[n].gen, w[3])
            runs == IF K.xref = "stream1" /\ w[1] # 0 /\ First
-                   THEN <<<<0, self + 1>>>>                                   \* one range, gaps as free entries
+                   THEN <<<<0, (CHOOSE n \in all : \A m \in all : m <= n) + 1>>>>    \* one range, gaps as free entries
                    ELSE Runs(all)
            rowOrFree(n) == IF n \in all THEN row(n) ELSE BE(0, w[1]) \o BE(0, w[2]) \o BE(0, w[3])
            data == Concat([r \in 1..Len(runs) |-> Concat([j \in 1..runs[r][2] |-> rowOrFree(runs[r][1] + j - 1)])])
